@@ -176,6 +176,82 @@ prop("C20",
      exhaustive_scope="all vectors over {T,F,u} of length 0..7",
      )
 
+prop("C08",
+     design_ref="DESIGN.md §5 C08",
+     technique="generated positives (AST equality with the public Formula) and constructed negatives double-checked by an independent recogniser",
+     level_text=("Runtime monitoring: generated files of the documented grammar (all eight constructors, keyword look-alike "
+                 "and quoted labels, random fact order and layout, nesting up to 200) must be accepted with empty remainder; "
+                 "the public AST of every condition is compared structurally (labels byte-identical) with what was written, "
+                 "the dictionary with first-declaration order, compiled handles with the written functions. Negatives are "
+                 "constructed by single edits (bracket deleted/inserted outside quotes, terminator dropped, arity changed, "
+                 "trailing garbage, truncation, leading blank, unknown predicate, empty) and must be rejected without a panic."),
+     level_note=ORACLE_NOTE + " A mutant counts as negative only if the independent recogniser rejects it (and, for bracket edits, brackets are unbalanced by construction).",
+     rule=("cases = generated positive files, each followed by ~13 negatives derived from it; non-trivial = positive using "
+           ">=3 connective kinds and >=1 special label, or a rejected negative that differs from a valid file by one edit; "
+           "distinct by text hash"),
+     quick=dict(cases=400, args={}),
+     thorough=dict(cases=6000, args={}),
+     )
+
+prop("C09",
+     design_ref="DESIGN.md §5 C09",
+     technique="per-statement translation check: stored handle walked under assignments vs own formula evaluation, 4 pipelines",
+     level_text=("Runtime monitoring: for every parsed ADF and every statement individually the stored handle is walked on "
+                 "the public node table under all assignments (n<=10) or 400 uniform/path-directed/corner assignments per "
+                 "statement (30-60 statements) and compared with the evaluation of the written condition; pipelines native, "
+                 "bridge, hybrid without and with pre-grounding (grounded values substituted, oracle side), all three sort "
+                 "modes; the node table of every import also passes the C06 audit."),
+     level_note=ORACLE_NOTE,
+     rule=("cases = generated ADFs (small: all assignments; large: sampled); non-trivial = >=2 binary connective kinds or a "
+           "large instance; distinct by structure hash"),
+     quick=dict(cases=300, args={}),
+     thorough=dict(cases=4000, args={"large": 60}),
+     )
+
+prop("C10",
+     design_ref="DESIGN.md §5 C10",
+     technique="metamorphic monitor over presentations (fact order, sort mode, layout, injective renaming) + oracle for small n",
+     level_text=("Runtime monitoring: 3-5 presentations of one ADF (permuted facts, none/lexi/alphanum sorting, layout, "
+                 "injective renamings incl. order-reversing and keyword-like/quoted labels) are solved with every procedure "
+                 "(grounded on 5 back-ends, complete, stable incl. prefilter, rewriting, both counting searches, nogood "
+                 "search, two-valued) and compared as label->value maps across variants and with the definitional oracle; "
+                 "printed interpretations are compared with constructed lines, lexi order must be byte-wise. Large instances "
+                 "(30-60 statements) are compared metamorphically plus grounded vs the support-bounded oracle."),
+     level_note=ORACLE_NOTE,
+     rule=("cases = base ADFs with 3-5 variants each; non-trivial = >=3 variants with pairwise different variable orders "
+           "and >=2 complete models, or a large instance; distinct by structure hash"),
+     quick=dict(cases=120, args={}),
+     thorough=dict(cases=1500, args={"large": 40}),
+     )
+
+prop("C11",
+     design_ref="DESIGN.md §5 C11",
+     technique="history monitor: answer-after-history vs fresh object vs oracle, twin-run transcript equality, private-table audit (hook H3)",
+     level_text=("Runtime monitoring: one long-lived object per case receives a random sequence of 12-60 public API calls "
+                 "(all semantics, nogood search under all built-in heuristics incl. seeded Rand, counting, depth, supports, "
+                 "impacts, cubes, extra formulas and restrictions built on the shared diagram). After each call the answer "
+                 "equals that of a freshly built object and the oracle, roots and node-table prefix are unchanged, and all "
+                 "five private tables are audited; a twin object fed the same sequence must produce byte-identical answers."),
+     level_note=ORACLE_NOTE,
+     rule=("cases = (ADF, call sequence); non-trivial = node table at least doubled and >=3 different semantics were "
+           "interleaved; distinct by hash of ADF structure and call sequence"),
+     quick=dict(cases=250, args={}),
+     thorough=dict(cases=3000, args={}),
+     )
+
+prop("C14",
+     design_ref="DESIGN.md §5 C14",
+     technique="history monitor with export/import and string-encoded rebuild at a random point; imported copies re-queried",
+     level_text=("Runtime monitoring: at a random point of a C11-style call history the object is exported to JSON and "
+                 "imported (+ repair step) and rebuilt from node list / ordering / root handles through the same string "
+                 "encoding the web service uses; node tables, roots and names must be identical, the private tables of the "
+                 "copies pass the audit, and the copies must answer every later call like the original and the oracle."),
+     level_note=ORACLE_NOTE + " CLI export/import legs are part of the CLI checks.",
+     rule=("cases = (ADF, call sequence, export point); non-trivial as in C11; distinct by hash of structure and sequence"),
+     quick=dict(cases=250, args={}),
+     thorough=dict(cases=3000, args={}),
+     )
+
 NOT_BUILT = "monitor not built yet in this session (work in progress); see DESIGN.md for the planned design"
-for _pid in ["C08", "C09", "C10", "C11", "C12", "C14", "C15", "C16", "C17"]:
+for _pid in ["C12", "C15", "C16", "C17"]:
     prop(_pid, claimed=False, reason=NOT_BUILT)
